@@ -14,13 +14,17 @@ package main
 // {"kind":"oracle"} lines for what the implementation itself gets wrong, {"kind":"stat"}.
 
 import (
+	"crypto/sha256"
 	stdcsv "encoding/csv"
+	"encoding/hex"
 	"encoding/json"
 	"fmt"
+	"io"
 	"io/ioutil"
 	"math"
 	"net/http/httptest"
 	"net/url"
+	"os"
 	"sort"
 	"strconv"
 	"strings"
@@ -100,8 +104,8 @@ type c14Desc struct {
 	actPu   []uint64
 	asis    map[string]float64
 	w       *c14World
-	dataset J                   // the data set as the (as-is) model instance holds it: catchInst.export
-	served  []J                 // sampled GET /model answers: served action set, six totals (grid integers), validity
+	dataset J   // the data set as the (as-is) model instance holds it: catchInst.export
+	served  []J // sampled GET /model answers: served action set, six totals (grid integers), validity
 	seenSrv map[string]bool
 	invalid map[string]string   // bit strings of the reached sets whose fresh instance is invalid -> token of its error text
 	fresh   map[string]c14Fresh // bit string -> fresh evaluation
@@ -121,10 +125,12 @@ type c14World struct {
 	stats  map[string]int
 	oracle int
 	errTok map[string]string // validation error text of some fresh instance -> token
+	big    map[string]J      // large generated body -> its compact description (c14big.go)
+	cur    *c14Engine        // the engine the request being judged was sent to (its history goes into oracle lines)
 }
 
 func c14NewWorld() *c14World {
-	return &c14World{texts: &c14Texts{ids: map[string]int{}}, descs: map[string]*c14Desc{}, views: map[string]J{}, stats: map[string]int{}, errTok: map[string]string{}}
+	return &c14World{texts: &c14Texts{ids: map[string]int{}}, descs: map[string]*c14Desc{}, views: map[string]J{}, stats: map[string]int{}, errTok: map[string]string{}, big: map[string]J{}}
 }
 
 func c14BuildModel(config *engineData.ScenarioConfig) (m *catchment.Model, kind string) {
@@ -370,8 +376,26 @@ func c14CsvView(text string) (view J) {
 		hdr = append(hdr, c14S(h))
 	}
 	cols, rows := ht.ColumnAndRowSize()
-	rs := [][]J{}
+	// consecutive identical rows (same field texts, same cast values) are run-length encoded: a large table made of
+	// filler rows stays small in the generated Coq case (EngineCorr.rle expands it again)
+	runs := []J{}
+	lastKey := ""
+	var kb strings.Builder
 	for r := uint(0); r < rows; r++ {
+		kb.Reset()
+		for c := uint(0); c < cols; c++ {
+			raw := "?"
+			if int(r)+1 < len(records) && int(c) < len(records[r+1]) {
+				raw = records[r+1][c]
+			}
+			fmt.Fprintf(&kb, "%T|%v|%s\x00", ht.Cell(c, r), ht.Cell(c, r), raw)
+		}
+		key := kb.String()
+		if len(runs) > 0 && key == lastKey {
+			runs[len(runs)-1]["n"] = runs[len(runs)-1]["n"].(int) + 1
+			continue
+		}
+		lastKey = key
 		row := []J{}
 		for c := uint(0); c < cols; c++ {
 			raw := "?"
@@ -389,9 +413,40 @@ func c14CsvView(text string) (view J) {
 				row = append(row, J{"t": "s", "v": "?"})
 			}
 		}
-		rs = append(rs, row)
+		runs = append(runs, J{"n": 1, "r": row})
 	}
-	return J{"k": "ok", "header": hdr, "rows": rs}
+	if len(runs) == int(rows) {
+		rs := [][]J{}
+		for _, run := range runs {
+			rs = append(rs, run["r"].([]J))
+		}
+		return J{"k": "ok", "header": hdr, "rows": rs}
+	}
+	return J{"k": "ok", "header": hdr, "rle": runs}
+}
+
+// c14ViewRows: the distinct rows of a CSV view, whichever way it carries them
+func c14ViewRows(view J) [][]J {
+	if rs, ok := view["rows"].([][]J); ok {
+		return rs
+	}
+	out := [][]J{}
+	if runs, ok := view["rle"].([]J); ok {
+		for _, run := range runs {
+			out = append(out, run["r"].([]J))
+		}
+	}
+	return out
+}
+
+// c14BigString: strings beyond this length (attribute values) are replaced by (length, hash) on both sides -- in the
+// parse-level view of the request and in the projection of what the engine serves -- so that generated cases stay small.
+// No handler inspects such a value except as an Encoding (the generators never produce an Encoding that long).
+const c14BigString = 2048
+
+func c14Sha(s string) string {
+	h := sha256.Sum256([]byte(s))
+	return hex.EncodeToString(h[:])
 }
 
 func c14Aval(v interface{}) interface{} {
@@ -401,6 +456,9 @@ func c14Aval(v interface{}) interface{} {
 	case bool:
 		return J{"b": x}
 	case string:
+		if len(x) > c14BigString {
+			return J{"s": fmt.Sprintf("big-string:%d:%s", len(x), c14Sha(x))}
+		}
 		return J{"s": c14S(x)}
 	}
 	return J{"o": c14S(c14Canon(v))}
@@ -417,10 +475,23 @@ func c14JsonView(body string) (view J) {
 		return J{"k": "err"}
 	}
 	l := [][]interface{}{}
+	runs := [][]interface{}{} // (count, name, value): consecutive identical entries run-length encoded
+	lastKey := ""
 	for _, a := range attrs {
-		l = append(l, []interface{}{c14S(a.Name), c14Aval(a.Value)})
+		name, val := c14S(a.Name), c14Aval(a.Value)
+		l = append(l, []interface{}{name, val})
+		key := name + "\x00" + c14Canon(val)
+		if len(runs) > 0 && key == lastKey {
+			runs[len(runs)-1][0] = runs[len(runs)-1][0].(int) + 1
+			continue
+		}
+		lastKey = key
+		runs = append(runs, []interface{}{1, name, val})
 	}
-	return J{"k": "attrs", "l": l}
+	if len(runs) == len(l) {
+		return J{"k": "attrs", "l": l}
+	}
+	return J{"k": "attrs", "rle": runs}
 }
 
 // c14Route: the harness's own reading of the route table of Mux.Initialise (no regexp).
@@ -534,14 +605,79 @@ func (w *c14World) abstract(q c14Req) J {
 	return a
 }
 
-func c14Do(m *engineApi.Mux, q c14Req) (r c15Resp) {
+// c14ChunkReader delivers a body in pieces of the given sizes (cyclically), as a network connection would: the meaning
+// of a request must not depend on how many bytes one Read returns.
+type c14ChunkReader struct {
+	s      string
+	pos    int
+	sizes  []int
+	k      int
+	failAt int // > 0: the connection breaks after that many bytes (the client went away in the middle of its upload)
+}
+
+func (c *c14ChunkReader) Read(p []byte) (int, error) {
+	if c.failAt > 0 && c.pos >= c.failAt {
+		return 0, io.ErrUnexpectedEOF // what net/http's body reader reports when fewer bytes than Content-Length arrive
+	}
+	if c.pos >= len(c.s) {
+		return 0, io.EOF
+	}
+	n := c.sizes[c.k%len(c.sizes)]
+	if c.failAt > 0 && n > c.failAt-c.pos {
+		n = c.failAt - c.pos
+	}
+	c.k++
+	if n > len(p) {
+		n = len(p)
+	}
+	if n > len(c.s)-c.pos {
+		n = len(c.s) - c.pos
+	}
+	copy(p, c.s[c.pos:c.pos+n])
+	c.pos += n
+	return n, nil
+}
+
+func c14Do(m *engineApi.Mux, q c14Req) c15Resp { return c14DoChunked(m, q, nil) }
+
+// c14AbortAt: a first chunk size -k says that the transport fails after k bytes of the body (if the body is that long)
+func c14AbortAt(chunks []int, body string) int {
+	if len(chunks) > 1 && chunks[0] < 0 && -chunks[0] < len(body) {
+		return -chunks[0]
+	}
+	if len(chunks) > 0 && chunks[0] < 0 {
+		return len(body) + 1 // marker present but the body is shorter: delivered completely
+	}
+	return 0
+}
+
+// c14DoChunked: chunks == nil: the body is a strings.Reader (one Read returns everything, Content-Length known);
+// otherwise the body arrives in pieces; a first size of 0 stands for "Content-Length unknown" (chunked transfer).
+func c14DoChunked(m *engineApi.Mux, q c14Req, chunks []int) (r c15Resp) {
 	defer func() {
 		if p := recover(); p != nil {
 			r = c15Resp{Panicked: true, Panic: fmt.Sprint(p)}
 		}
 	}()
 	rec := httptest.NewRecorder()
-	req := httptest.NewRequest(q.Method, "http://dummyUrl"+q.Path, strings.NewReader(q.Body))
+	var body io.Reader = strings.NewReader(q.Body)
+	known := true
+	failAt := c14AbortAt(chunks, q.Body)
+	if failAt > 0 {
+		chunks = chunks[1:]
+	}
+	if len(chunks) > 0 && chunks[0] == 0 {
+		known, chunks = false, chunks[1:]
+	}
+	if len(chunks) > 0 && q.Body != "" {
+		body = &c14ChunkReader{s: q.Body, sizes: chunks, failAt: failAt}
+	}
+	req := httptest.NewRequest(q.Method, "http://dummyUrl"+q.Path, body)
+	if known {
+		req.ContentLength = int64(len(q.Body))
+	} else {
+		req.ContentLength = -1
+	}
 	if q.Ctype != "" {
 		req.Header.Add("Content-Type", q.Ctype)
 	}
@@ -767,14 +903,15 @@ func (w *c14World) project(routeKind string, r c15Resp, d *c14Desc) J {
 // one engine under test
 
 type c14Engine struct {
-	w     *c14World
-	mux   *engineApi.Mux
-	hist  []c14Req
-	steps []J
-	last  string // canonical text of the last emitted observation
-	raw   map[string]c15Resp
-	name  string
-	dead  bool
+	w      *c14World
+	mux    *engineApi.Mux
+	hist   []c14Req
+	steps  []J
+	last   string // canonical text of the last emitted observation
+	raw    map[string]c15Resp
+	name   string
+	dead   bool
+	chunks []int // how request bodies are delivered to this engine (c14DoChunked)
 }
 
 func (w *c14World) newEngine(name string) *c14Engine {
@@ -826,16 +963,50 @@ func (e *c14Engine) send(q c14Req) c15Resp {
 		return c15Resp{Panicked: true}
 	}
 	w := e.w
+	w.cur = e
 	abs := w.abstract(q)
+	aborted := 0
+	if at := c14AbortAt(e.chunks, q.Body); at > 0 && at < len(q.Body) {
+		// an upload that broke off is no request body at all: the model is asked what the engine does with an EMPTY body
+		// on this route (every body-carrying handler refuses it and changes nothing)
+		aborted = at
+		empty := q
+		empty.Body = ""
+		abs = w.abstract(empty)
+	}
 	kind := abs["route"].(J)["k"].(string)
 	before := e.raw
 	if kind == "model" && q.Method == "PATCH" {
 		e.registerIntermediateSets(q.Body)
 	}
-	r := c14Do(e.mux, q)
+	r := c14DoChunked(e.mux, q, e.chunks)
 	w.stats["requests"]++
 	w.stats["route:"+kind+":"+c14Meth(q.Method)]++
-	step := J{"req": abs, "go": J{"method": q.Method, "path": q.Path, "ctype": q.Ctype, "body": c14Short(q.Body)}}
+	goRec := J{"method": q.Method, "path": q.Path, "ctype": q.Ctype, "body": c14Short(q.Body)}
+	if len(q.Body) > 300 {
+		goRec["body_len"] = len(q.Body)
+		goRec["body_sha256"] = c14Sha(q.Body)
+	}
+	if gen, ok := w.big[q.Body]; ok {
+		goRec["body_generated_as"] = c14ShortGen(gen)
+		w.stats["big:requests"]++
+		if len(q.Body) > 1<<20 {
+			w.stats["big:over_1MiB"]++
+			w.stats["big:over_1MiB:"+c14Meth(q.Method)+" "+kind]++
+		}
+	}
+	if aborted > 0 {
+		goRec["upload_broke_off_after_bytes"] = aborted
+		w.stats["aborted_uploads"]++
+		if !r.Panicked && r.Status == 200 {
+			w.oracleLine("incomplete-body-acted-upon", q, r, abs, fmt.Sprintf("the body reader failed after %d of %d bytes (upload broken off) and the request was answered 200", aborted, len(q.Body)))
+		}
+	}
+	if len(e.chunks) > 0 && q.Body != "" {
+		goRec["delivered_in_chunks_of"] = e.chunks
+		w.stats["chunked_bodies"]++
+	}
+	step := J{"req": abs, "go": goRec}
 	if r.Panicked {
 		w.stats["status:panic"]++
 		step["resp"] = J{"k": "panic", "what": r.Panic}
@@ -886,7 +1057,7 @@ func (e *c14Engine) send(q c14Req) c15Resp {
 	if r.Status != 200 && (q.Method == "POST" || q.Method == "PUT" || q.Method == "PATCH") && kind != "none" {
 		// hidden state: replay the history with and without the failed request, then one successful no-op write
 		// (which rebuilds the served snapshot from the live model), and compare what is served
-		if diff := c14HiddenChange(e.hist, q); diff != "" {
+		if diff := c14HiddenChange(e.hist, q, e.chunks); diff != "" {
 			w.oracleLine("error-status-but-hidden-state-changed", q, r, abs, "answered "+strconv.Itoa(r.Status)+" but after a later no-op write "+diff+" differs from the run without this request")
 		}
 	}
@@ -895,7 +1066,7 @@ func (e *c14Engine) send(q c14Req) c15Resp {
 		// silent acceptance: an accepted summary must not contain an Actions cell the scenario's compressor rejects
 		if d := e.currentDesc(); d != nil {
 			if view, _ := abs["csv"].(J); view != nil && view["k"] == "ok" {
-				for _, row := range view["rows"].([][]J) {
+				for _, row := range c14ViewRows(view) {
 					if len(row) < 2 {
 						continue
 					}
@@ -912,7 +1083,25 @@ func (e *c14Engine) send(q c14Req) c15Resp {
 			}
 		}
 	}
-	if r.Status == 200 && q.Method == "POST" && (kind == "scenario" || kind == "solutions") {
+	if r.Status == 200 && aborted == 0 {
+		// silent acceptance: the body as a whole does not parse (same library call, on all of the bytes sent)
+		view := ""
+		switch {
+		case kind == "scenario" && q.Method == "POST":
+			view = "toml"
+		case (kind == "solutions" && q.Method == "POST") || (kind == "active" && q.Method == "PUT"):
+			view = "csv"
+		case (kind == "model" && q.Method == "PATCH") || (kind == "sub" && q.Method == "PUT"):
+			view = "json"
+		}
+		if v, _ := abs[view].(J); view != "" && v["k"] == "err" {
+			w.oracleLine("unparsable-body-accepted", q, r, abs, "answered 200 although the body as a whole is not a "+view+" document the handler's parser accepts")
+		}
+	}
+	if kind == "solution" && q.Method == "GET" {
+		w.solutionLookupOracle(q, r, abs, step, raw[c14Api+"/solutions"])
+	}
+	if r.Status == 200 && aborted == 0 && q.Method == "POST" && (kind == "scenario" || kind == "solutions") {
 		got := raw[c14Api+"/"+kind]
 		if got.Status != 200 || got.Body != q.Body {
 			w.oracleLine("text-not-verbatim", q, r, abs, "GET /"+kind+" does not return the bytes just posted")
@@ -922,6 +1111,38 @@ func (e *c14Engine) send(q c14Req) c15Resp {
 		w.oracleLine("served-valuation-differs-from-fresh-instance", q, r, abs, "GET /model serves decision variables that a fresh model in the served action set does not have")
 	}
 	return r
+}
+
+// solutionLookupOracle: GET /solutions/<label> is answered from the summary GET /solutions serves NOW: 404 unless a row
+// of it carries the label, and (for labels other than As-Is) the served Encoding is the Actions cell of the FIRST such
+// row.  The summary text is read here with encoding/csv directly, independently of the engine's table.
+func (w *c14World) solutionLookupOracle(q c14Req, r c15Resp, abs J, step J, current c15Resp) {
+	label, _ := abs["route"].(J)["label"].(string)
+	var row []string
+	if current.Status == 200 {
+		rd := stdcsv.NewReader(strings.NewReader(current.Body))
+		rd.TrimLeadingSpace = true
+		rd.FieldsPerRecord = -1
+		if recs, err := rd.ReadAll(); err == nil && len(recs) > 1 {
+			for _, rec := range recs[1:] {
+				if len(rec) > 0 && rec[0] == label {
+					row = rec
+					break
+				}
+			}
+		}
+	}
+	switch {
+	case r.Status == 200 && row == nil:
+		w.oracleLine("solution-served-under-label-not-in-current-summary", q, r, abs, "GET /solutions/"+label+" answered 200 although no row of the summary GET /solutions serves now carries that label")
+	case r.Status == 404 && row != nil:
+		w.oracleLine("label-of-current-summary-not-found", q, r, abs, "GET /solutions/"+label+" answered 404 although a row of the summary GET /solutions serves now carries that label")
+	case r.Status == 200 && label != "As-Is" && len(row) >= 2:
+		pb, _ := step["resp"].(J)["b"].(J)
+		if enc, isText := pb["enc"].(string); pb["k"] == "solution" && (!isText || enc != c14S(row[len(row)-2])) {
+			w.oracleLine("solution-served-from-another-row", q, r, abs, fmt.Sprintf("GET /solutions/%s serves Encoding %v but the Actions cell of the label's first row in the current summary is [%s]", label, pb["enc"], row[len(row)-2]))
+		}
+	}
 }
 
 // registerIntermediateSets: a PATCH with several Encoding entries passes through action sets that are never served;
@@ -952,15 +1173,15 @@ func (e *c14Engine) registerIntermediateSets(body string) {
 	}
 }
 
-func c14HiddenChange(hist []c14Req, failed c14Req) string {
+func c14HiddenChange(hist []c14Req, failed c14Req, chunks []int) string {
 	noop := c14Req{"PUT", c14Api + "/model/actions/active", c14Csv, "SubCatchment\n"}
 	serve := func(with bool) map[string]string {
 		m := c15NewMux()
 		for _, q := range hist {
-			c14Do(m, q)
+			c14DoChunked(m, q, chunks)
 		}
 		if with {
-			c14Do(m, failed)
+			c14DoChunked(m, failed, chunks)
 		}
 		c14Do(m, noop)
 		out := map[string]string{}
@@ -1002,8 +1223,39 @@ func (w *c14World) oracleLine(what string, q c14Req, r c15Resp, abs J, detail st
 	if len(tail) > 120 {
 		tail = tail[len(tail)-120:]
 	}
-	emit(J{"kind": "oracle", "what": what, "detail": detail, "shape": shape, "method": q.Method, "path": q.Path, "ctype": q.Ctype,
-		"body": c14Short(q.Body), "body_tail": c14S(tail), "status": r.Status, "panic": r.Panic})
+	line := J{"kind": "oracle", "what": what, "detail": detail, "shape": shape, "method": q.Method, "path": q.Path, "ctype": q.Ctype,
+		"body": c14Short(q.Body), "body_tail": c14S(tail), "status": r.Status, "panic": r.Panic}
+	if len(q.Body) > 300 {
+		line["body_len"] = len(q.Body)
+		line["body_sha256"] = c14Sha(q.Body)
+	}
+	if gen, ok := w.big[q.Body]; ok {
+		line["body_generated_as"] = gen // body = prefix + count x unit + pad_count x pad + suffix, in full
+	}
+	if e := w.cur; e != nil {
+		// the requests this engine had received before (the failing one comes after them, on a fresh Mux)
+		line["sequence"] = e.name
+		hist := []J{}
+		for _, h := range e.hist {
+			item := J{"method": h.Method, "path": h.Path, "ctype": h.Ctype, "body": c14S(h.Body)}
+			if len(h.Body) > 1500 {
+				item["body"] = c14Short(h.Body)
+				item["body_len"], item["body_sha256"] = len(h.Body), c14Sha(h.Body)
+				if gen, ok := w.big[h.Body]; ok {
+					item["body_generated_as"] = c14ShortGen(gen)
+				}
+			}
+			hist = append(hist, item)
+		}
+		if len(hist) > 40 {
+			hist = hist[len(hist)-40:]
+		}
+		line["history"] = hist
+		if len(e.chunks) > 0 {
+			line["delivered_in_chunks_of"] = e.chunks
+		}
+	}
+	emit(line)
 }
 
 func (e *c14Engine) finish(tag string) {
@@ -1056,6 +1308,7 @@ type c14Gen struct {
 	summary string
 	scen    []string // usable scenario texts
 	badScen []string
+	tenMiB  map[string]bool // c14big.go: the families that get a 10 MiB body in the quick tier
 }
 
 func c14NewGen(w *c14World, salt uint64) *c14Gen {
@@ -1477,6 +1730,12 @@ func runC14(args []string) {
 	}
 	for i := 0; i < nseq; i++ {
 		e := w.newEngine(fmt.Sprintf("seq-%d", i))
+		if g.p.chance(0.3) { // the bodies of this walk arrive in pieces
+			e.chunks = c14ChunkPatterns[1+g.p.intn(len(c14ChunkPatterns)-1)]
+			if g.p.chance(0.4) {
+				e.chunks = []int{1}
+			}
+		}
 		if g.p.chance(0.85) {
 			e.send(c14Req{"POST", c14Api + "/scenario", c14Toml, g.pick(g.scen)})
 		}
@@ -1494,6 +1753,19 @@ func runC14(args []string) {
 	}
 	for k, name := range []string{"ModelSuppliedPlanningUnitName", "ValidationErrors", "ParetoFrontMember", "ValidAgainstScenario"} {
 		g.routeTriple(ntriple+k, name)
+	}
+	nhist := 10
+	if tier == "thorough" {
+		nhist = 200
+	}
+	g.summaryCanonical()
+	for i := 0; i < nhist; i++ {
+		g.summaryHistory(i, 3+g.p.intn(4), 0.2)
+	}
+	g.largeBodies(tier, false)
+	if os.Getenv("VERIF_C14_ABORTED_UPLOADS") == "1" {
+		// opt-in until proposed_fixes/C14-8 is in /repo: the unchanged engine acts on the part of a body that arrived
+		g.abortedUploads()
 	}
 	w.finish()
 }
